@@ -505,7 +505,7 @@ func runOutsideQueueTasks(c *eng.Ctx, r11 *eng.RuleCtx) {
 				continue
 			}
 			n++
-			for _, src := range valueSources(info, f.Decl.Body, call.Args[1], 3) {
+			for _, src := range valueSources(info, f.Decl.Body, argLike(info, call, 1, typeNamed("pkg/task/queue", "TaskQueue")), 3) {
 				cl, isC := ast.Unparen(src).(*ast.CallExpr)
 				if !isC || !isCallTo(info, cl, getByName) || len(cl.Args) != 1 {
 					okAll = false
